@@ -36,6 +36,7 @@ import (
 func TestMain(m *testing.M) {
 	// the 2^32 address sweep allocates a few short strings per address on a tiny live heap; a larger GC
 	// target only reduces the number of collections (harness-side setting, no effect on what is checked)
+	runColdProbes() // before any other use of the packages in this process
 	debug.SetGCPercent(2000)
 	pbt.Main(m, "C15")
 }
